@@ -67,6 +67,9 @@ PROP = dict(
              "delete a key, overwrite an element, append) - by the harness after the start, or by A's own Init (Go-declared vlMutInit) -, holder B binds the same subtrees by prefix (map, list, "
              "[]string, struct), through a placeholder and the shorthand: a second App sharing the Configure | the same start (B populated before the edit, read after it; Go-declared observers "
              "whose names sort in front of / behind A's) | a LazyInit holder fetched afterwards; B must hold the document's values: bound-aliased; "
+             "after these, n/25 HM histories whose edits go BELOW the top level (`<field>:/k<hexkey>/i<index>/…:<op>`): a key set / deleted inside a nested map (sa.sb, sa.sb.sc), an element of a nested list "
+             "(sa.sb.sl) or of a map inside a list (sm: [{kn, kp}, …]) overwritten, edits through fields of type any bound by prefix to a section / a list (type-asserted, top level and below; Go-declared "
+             "vlMutInitAny for the Init modes j<n> ja jz); B binds the affected leaves by prop / ${} / prefix (scalar, struct, *struct, []struct, map, any); same oracle; "
              "non-trivial = everything except bool->bool; distinct = distinct scenario lines",
         trusted_base=COMMON_TB + ["yaml.v3 + viper (document -> Go value), strconv2.ParseAny/FormatAny, mapstructure weak decoding, fmt %v / strconv.FormatFloat, "
                                   "encoding/json as modelled in Ioc.Value (validated by the correspondence on every run)",
@@ -77,8 +80,9 @@ PROP = dict(
                      "override layer alone, the prefix-bound struct gets port 0 while prop:\"db.port\" still gives the document's value - is finding KF-C17-9 (the model has the code's behaviour, the "
                      "oracle setget-sibling-lost demands the document's value); what a lookup answers below a section that was REPLACED by a map which does not mention the path is not claimed; "
                      "paths run through maps (no list index), Set is not handed nil",
-                     "histories (HM): only the TOP LEVEL of a bound map[string]any / []any is edited: the decoder builds a fresh top-level map / slice per field but hands nested maps and lists "
-                     "over as they are (as it does for a field of type any) - editing those in place is outside what is claimed",
+                     "histories (HM): a bound value is edited with the operations a component has on map[string]any / []any (set / delete a key, overwrite an element, append) at any depth the document "
+                     "has, fields of type any are type-asserted first; since the repair d95d431 (D23: the binder hands out copies) no depth is excluded; the edits never touch typed values "
+                     "(structs, []string, map[string]string), which the decoder builds anew anyway",
                      "value-path equality is claimed for Faithful values only; its complement is exactly the eight known-finding classes "
                      "(numberlike, boollike, quoted, bracketed, bigint, empty, reexpanded, panic)",
                      "pairs whose Go behaviour is implementation defined or outside the modelled float class (negative -> uint, underscores in numeric strings, "
